@@ -217,9 +217,22 @@ func RandomSchema(r *rand.Rand, idx int) *schema.File {
 			names[i] = parents[i] + "_" + names[i]
 		}
 	}
+	// sometimes an enum is declared inside a message (also inside a leaf or a nested one); any
+	// message of the file may use it
+	enumRefs := []string{"E"}
+	for mi := 0; mi < nm; mi++ {
+		if r.Intn(3) == 0 {
+			en := names[mi] + "_K"
+			f.Enums = append(f.Enums, schema.Enum{Parent: names[mi], Name: en, Names: []string{"K_ZERO", "K_ONE", "K_NEG"}, Values: []int32{0, 1, -3}})
+			enumRefs = append(enumRefs, en)
+		}
+	}
 	for mi := 0; mi < nm; mi++ {
 		m := schema.Message{Name: names[mi], Parent: parents[mi], Capture: r.Intn(3) == 0}
 		nf := 1 + r.Intn(10)
+		if r.Intn(12) == 0 {
+			nf = 0 // a message without declared fields (an opaque envelope when it captures)
+		}
 		used := map[int32]bool{}
 		pick := func() int32 {
 			for {
@@ -251,7 +264,7 @@ func RandomSchema(r *rand.Rand, idx int) *schema.File {
 				fd.Kind = schema.Scalars[k]
 			case k == 15 || k == 16:
 				fd.Kind = "enum"
-				fd.Ref = "E"
+				fd.Ref = enumRefs[r.Intn(len(enumRefs))]
 			case k == 17:
 				fd.Kind = "map"
 				fd.MapKey = schema.MapKeys[r.Intn(len(schema.MapKeys))]
